@@ -69,6 +69,17 @@ class Author(Base):
     home = relationship("Region")
     posts = relationship("Post", back_populates="author")
     comments = relationship("Comment", back_populates="author")
+    # one-to-one seen from the side that does not hold the key
+    profile = relationship("Profile", back_populates="author", uselist=False)
+
+
+class Profile(Base):
+    __tablename__ = "profile"
+    id = sa.Column(sa.Integer, primary_key=True)
+    bio = sa.Column(sa.String, nullable=False)
+    level = sa.Column(sa.Integer, nullable=False)
+    author_id = sa.Column(sa.ForeignKey("author.id"), unique=True)
+    author = relationship("Author", back_populates="profile")
 
 
 class Tag(Base):
@@ -171,13 +182,14 @@ def load_scalar(rows):
 
 def load_relational(inst):
     with engine().begin() as con:
-        for tb in (post_tags, Comment.__table__, Post.__table__, Tag.__table__,
+        for tb in (post_tags, Comment.__table__, Post.__table__, Tag.__table__, Profile.__table__,
                    Author.__table__, Country.__table__, Region.__table__):
             con.execute(tb.delete())
         for name, tb in (("region", Region.__table__), ("country", Country.__table__), ("author", Author.__table__),
+                         ("profile", Profile.__table__),
                          ("tag", Tag.__table__), ("post", Post.__table__),
                          ("comment", Comment.__table__)):
-            if inst[name]:
+            if inst.get(name):
                 con.execute(tb.insert(), inst[name])
         if inst["post_tags"]:
             con.execute(post_tags.insert(), [{"post_id": p, "tag_id": t}
